@@ -684,6 +684,7 @@ func Input(l *InputSharedVars, g *GlobalVarsMain, hPath *HFilePath, driConfig *C
 						}
 					}
 
+					g.EINTE[NRTIL+1] = 0 // slot of a dropped pre-start event
 					// events on the same day are carried out on consecutive days: keep the dates strictly ascending
 					for i := 1; i < NRTIL; i++ {
 						if g.EINTE[i+1] <= g.EINTE[i] {
@@ -717,6 +718,7 @@ func Input(l *InputSharedVars, g *GlobalVarsMain, hPath *HFilePath, driConfig *C
 						}
 
 					}
+					g.ZTDG[NDu] = 0 // slot of a dropped pre-start event
 					// events on the same day are carried out on consecutive days: keep the dates strictly ascending
 					for i := 1; i < NDu; i++ {
 						index := i - 1
